@@ -797,6 +797,11 @@ func (pm *Portmapper) makeReply(xid uint32, status uint32, data []byte) []byte {
 		}
 	} else {
 		binary.Write(&buf, binary.BigEndian, status)
+		if status == PROG_MISMATCH {
+			// mismatch_info: lowest and highest supported version
+			binary.Write(&buf, binary.BigEndian, uint32(2))
+			binary.Write(&buf, binary.BigEndian, uint32(4))
+		}
 	}
 
 	return buf.Bytes()
